@@ -30,8 +30,12 @@ class Engine:
         return self._imports
 
     # -- summaries (bottom-up on demand; recursion is an analysis error)
-    def summary(self, fi, clsbind=None, inline=frozenset(), funargs=()):
-        key = (fi.qualname, clsbind, frozenset(inline), tuple(funargs))
+    def summary(self, fi, clsbind=None, inline=frozenset(), funargs=(), raw=False):
+        if not raw and getattr(fi, "parent", None) is None and not getattr(fi, "is_proxy", False):
+            proxy = self._decorated_proxy(fi)
+            if proxy is not None:
+                fi = proxy
+        key = (fi.qualname + ("@decorated" if getattr(fi, "is_proxy", False) else ""), clsbind, frozenset(inline), tuple(funargs))
         sm = self._summaries.get(key)
         if sm is not None:
             return sm
@@ -49,6 +53,42 @@ class Engine:
         self.stats["functions_walked"] += 1
         self.stats["paths"] += sm.npaths
         return sm
+
+    def _decorated_proxy(self, fi):
+        """a function with repository-defined decorators is, to its callers and to the rules, what
+        the decorators make of it: a stand-in `def f(<same parameters>): return <decorated>(...)`"""
+        from .calls import active_decorators, decorated_value
+        from .model import FuncInfo
+
+        cache = self.__dict__.setdefault("_proxies", {})
+        if fi.qualname in cache:
+            return cache[fi.qualname]
+        cache[fi.qualname] = None
+        if not isinstance(fi, FuncInfo) or not active_decorators(fi):
+            return None
+        dv = decorated_value(Walker(self, _PseudoFunc(fi.mod)), fi)
+        if dv is None:
+            return None
+        a = fi.node.args
+        args = [ast.Name(id=x.arg, ctx=ast.Load()) for x in a.posonlyargs + a.args]
+        if a.vararg:
+            args.append(ast.Starred(value=ast.Name(id=a.vararg.arg, ctx=ast.Load()), ctx=ast.Load()))
+        kws = [ast.keyword(arg=x.arg, value=ast.Name(id=x.arg, ctx=ast.Load())) for x in a.kwonlyargs]
+        if a.kwarg:
+            kws.append(ast.keyword(arg=None, value=ast.Name(id=a.kwarg.arg, ctx=ast.Load())))
+        ret = ast.Return(value=ast.Call(func=ast.Name(id="$decorated", ctx=ast.Load()), args=args, keywords=kws))
+        keep = [d for d in fi.node.decorator_list if d not in active_decorators(fi)]
+        node = ast.FunctionDef(name=fi.node.name, args=a, body=[ret], decorator_list=keep, returns=None, type_comment=None)
+        for x in ast.walk(node):
+            if not hasattr(x, "lineno"):
+                ast.copy_location(x, fi.node)
+        ast.fix_missing_locations(node)
+        node.lineno, node.col_offset = fi.node.lineno, fi.node.col_offset
+        proxy = FuncInfo(fi.qualname, fi.mod, node, cls=fi.cls, parent=None)
+        proxy.is_proxy = True
+        proxy.extra_env = {"$decorated": dv}
+        cache[fi.qualname] = proxy
+        return proxy
 
     def walk(self, qualname, clsbind=None, inline=None):
         """summary of an anchor function by qualified name (vanished anchor -> AnalysisError).
